@@ -3,7 +3,9 @@
 //!   gen --seed S --cases N [--tier quick|thorough] [--prop C08|C04|all]
 //!   run <file> [--prop C08|C04|all]      (re-run the programs of a transcript / case file)
 //!   stress --seed S --cases N [--tier ..] (real threads; histories judged by monitors only)
+//!   block --seed S --cases N              (receivers parked in recv_timeout/recv while calls that must not block are timed)
 //! Transcript protocol: /verif/docs/CONVENTIONS.md; tokens: lean/Fv/Driver/Topic.lean.
+mod block;
 mod exec;
 mod gen;
 mod monitor;
@@ -74,6 +76,13 @@ fn main() {
       let file = a.get(1).cloned().unwrap_or_else(|| { eprintln!("run <file>"); std::process::exit(2) });
       for c in read_cases(&file) {
         if kv(&c.header, "mode") == Some("stress") { continue; }
+        if kv(&c.header, "mode") == Some("block") {
+          match block::params_from_header(&c.header) {
+            Some(p) => print!("{}", block::block_case(&c.id, &p)),
+            None => { eprintln!("topich: case {}: bad block header", c.id); std::process::exit(2); }
+          }
+          continue;
+        }
         let fam_s = prop.clone().unwrap_or_else(|| kv(&c.header, "prop").unwrap_or("C08").to_string());
         let cap: usize = kv(&c.header, "cap").and_then(|s| s.parse().ok()).unwrap_or(1);
         let is_async = kv(&c.header, "kind") == Some("async");
@@ -90,6 +99,15 @@ fn main() {
         let mut rng = Rng::new(seed.wrapping_mul(7_000_003).wrapping_add(i as u64));
         print!("{}", stress::stress_case(&format!("s{seed}-{i}"), &mut rng, tier == "thorough"));
       }
+    }
+    Some("block") => {
+      // mostly sleeping threads: a few cases in parallel keep the wall time down without disturbing the timing
+      let outs = par_map(cases, 4, |i| {
+        let mut rng = Rng::new(seed.wrapping_mul(9_000_011).wrapping_add(i as u64));
+        let p = block::gen_params(&mut rng);
+        block::block_case(&format!("w{seed}-{i}"), &p)
+      });
+      for o in outs { print!("{o}"); }
     }
     Some("selftest") => {
       // the monitors must flag hand-made histories that violate the property (oracle sanity)
